@@ -11,6 +11,7 @@ import (
 
 	kubeapps "k8s.io/api/apps/v1"
 	v1 "k8s.io/api/core/v1"
+	metav1 "k8s.io/apimachinery/pkg/apis/meta/v1"
 	"k8s.io/apimachinery/pkg/types"
 
 	apps "github.com/pingcap/advanced-statefulset/client/apis/apps/v1"
@@ -119,6 +120,10 @@ func VH_History(a []int) {
 		sym.Assume(r.mine)
 		setPodRevision(pod, r.name)
 		r.live = true
+		// a pod that is terminating but still present keeps its revision live
+		if sym.Pick("pod.terminating", 2) == 1 {
+			pod.DeletionTimestamp = &metav1.Time{}
+		}
 		w.pods = append(w.pods, pod)
 		w.apiPods = append(w.apiPods, pod.DeepCopy())
 		for _, c := range getPersistentVolumeClaims(set, pod) {
